@@ -384,14 +384,17 @@ def parseTree (cs : List Char) : Option SdfFile :=
 /-! ## what the transformer can raise on -/
 def isDigit (c : Char) : Bool := '0' ≤ c && c ≤ '9'
 
+/-- unsigned part: `digits+ .? digits* | . digits+` -/
+def ufloatOK (u : List Char) : Bool :=
+  match (spanP isDigit u).2 with
+  | [] => !(spanP isDigit u).1.isEmpty
+  | c :: fp => c = '.' && fp.all isDigit && !((spanP isDigit u).1.isEmpty && fp.isEmpty)
+
 /-- `float(s)` succeeds, for `s` over `[-.0-9]`: `-? (digits+ .? digits* | . digits+)` -/
 def floatOK (s : List Char) : Bool :=
-  let u := match s with | '-' :: r => r | _ => s
-  let (ip, r) := spanP isDigit u
-  match r with
-  | [] => !ip.isEmpty
-  | '.' :: fp => fp.all isDigit && !(ip.isEmpty && fp.isEmpty)
-  | _ => false
+  match s with
+  | [] => false
+  | c :: r => if c = '-' then ufloatOK r else ufloatOK (c :: r)
 
 /-- `float(a.value[:-1]) if len(a.value) > 1 else 0.0` does not raise -/
 def fieldOK (s : List Char) : Bool := s.isEmpty || floatOK s
@@ -416,16 +419,18 @@ def parseSdf (s : String) : Option SdfFile := parseSdfL s.toList
 /-! ## hand-over to the post-parse model -/
 def digitsVal (ds : List Char) : Nat := ds.foldl (fun acc c => 10 * acc + (c.toNat - '0'.toNat)) 0
 
-/-- thousandths of a number field when it has at most three fraction digits (after dropping trailing zeros) -/
+/-- thousandths of a number field when its fraction has at most three digits that matter (later ones all `0`) -/
 def milli (s : List Char) : Option Int :=
   if !floatOK s then none else
   let neg := s.head? == some '-'
   let u := if neg then s.drop 1 else s
-  let (ip, r) := spanP isDigit u
-  let fp := (r.drop 1).reverse.dropWhile (· == '0') |>.reverse
-  if fp.length > 3 then none else
-  let v : Int := (digitsVal ip * 1000 + digitsVal (fp ++ List.replicate (3 - fp.length) '0') : Nat)
-  some (if neg then -v else v)
+  let ip := (spanP isDigit u).1
+  let fp := (spanP isDigit u).2.drop 1
+  if (fp.drop 3).all (· == '0') then
+    let f3 := fp.take 3 ++ List.replicate (3 - (fp.take 3).length) '0'
+    let v : Int := ((digitsVal ip * 1000 + digitsVal f3 : Nat) : Int)
+    some (if neg then -v else v)
+  else none
 
 def fieldVal (s : List Char) : Option (Option Int) := if s.isEmpty then some none else (milli s).map some
 
@@ -447,6 +452,42 @@ def TCell.toRaw (c : TCell) : Option KV.Sdf.RawCell :=
 
 /-- the block list `KV.Sdf.parse` consumes; `none` when some number has more than three fraction digits -/
 def SdfFile.toRaw (f : SdfFile) : Option (List KV.Sdf.RawCell) := optAll (f.cells.map TCell.toRaw)
+
+/-! ## from the block list of the post-parse model to a tree (numbers as thousandths, printed `i.fff`) -/
+def digitCh (d : Nat) : Char := Char.ofNat (48 + d)
+
+def natDigitsAux : Nat → Nat → List Char → List Char
+  | 0, _, acc => acc
+  | f + 1, n, acc => if n < 10 then digitCh n :: acc else natDigitsAux f (n / 10) (digitCh (n % 10) :: acc)
+
+/-- decimal digits of `n` -/
+def natDigits (n : Nat) : List Char := natDigitsAux (n + 1) n []
+
+/-- `v` thousandths as `[-]i.fff` -/
+def showMilli (v : Int) : List Char :=
+  let a := v.natAbs
+  (if v < 0 then ['-'] else []) ++ (natDigits (a / 1000) ++ ['.', digitCh (a / 100 % 10), digitCh (a / 10 % 10), digitCh (a % 10)])
+
+def fieldTxt : Option Int → List Char
+  | none => []
+  | some v => showMilli v
+
+def ofRawTriple : KV.Sdf.RawTriple → TTriple
+  | [a, b, c] => some (fieldTxt a, fieldTxt b, fieldTxt c)
+  | _ => none
+
+def ofRawEntry (io : Bool) (e : KV.Sdf.RawEntry) : TEntry := ⟨io, e.a.toList, e.b.toList, e.vals.map ofRawTriple⟩
+
+/-- entries of a block with an INSTANCE name are printed as IOPATH, those of a block without as INTERCONNECT (the
+post-parse model does not distinguish them: which loop reads an entry is decided by the block name alone) -/
+def ofRawCell (c : KV.Sdf.RawCell) : TCell :=
+  ⟨c.insts.map String.toList, c.delays.map fun es => es.map (ofRawEntry (!c.insts.isEmpty))⟩
+
+def ofRaw (B : List KV.Sdf.RawCell) : SdfFile := ⟨[], B.map ofRawCell⟩
+
+/-- value lists are `()` or three fields -/
+def rawShapeOK (B : List KV.Sdf.RawCell) : Bool :=
+  B.all fun c => c.delays.all fun es => es.all fun e => e.vals.all fun t => t.length == 0 || t.length == 3
 
 /-! ## which trees the canonical printer can show (hypothesis of the round-trip theorem) -/
 /-- a plain (unquoted) name token: non-empty, all characters in the terminal's class, and not starting with a
